@@ -22,6 +22,24 @@ for name, m in sorted(p.modules.items()):
             if isinstance(x, ast.Name) and isinstance(x.ctx, ast.Store):
                 d.setdefault(x.id, "v")
     out[name] = d
+# parameter lists and stored attribute names of the reference tree: a
+# parameter / attribute that is not in them was added since
+# (core._specialise_defaults reads functions at the defaults of new parameters)
+params = {}
+attrs = set()
+for name, m in sorted(p.modules.items()):
+    pd = {}
+    for q, n in m.defs.items():
+        if q != "__dups__" and isinstance(n, (ast.FunctionDef, ast.AsyncFunctionDef)):
+            a = n.args
+            pd[q] = [x.arg for x in a.posonlyargs + a.args + a.kwonlyargs] + \
+                ([a.vararg.arg] if a.vararg else []) + ([a.kwarg.arg] if a.kwarg else [])
+    params[name] = pd
+    for x in ast.walk(m.tree):
+        if isinstance(x, ast.Attribute) and isinstance(x.ctx, (ast.Store, ast.Del)):
+            attrs.add(x.attr)
+base = os.path.join(os.path.dirname(os.path.dirname(os.path.abspath(__file__))), "rigverif")
+json.dump({"params": params, "attrs": sorted(attrs)}, open(os.path.join(base, "reference_params.json"), "w"), indent=0, sort_keys=True)
 path = os.path.join(os.path.dirname(os.path.dirname(os.path.abspath(__file__))), "rigverif", "known_names.json")
 json.dump(out, open(path, "w"), indent=0, sort_keys=True)
 print(sum(len(v) for v in out.values()), "names")
